@@ -187,10 +187,25 @@ PENDING = "check under construction in this session; not claimed until its TLA+ 
 m = json.load(open(os.path.join(V, "MANIFEST.json")))
 m["checks"] = []
 m["not_applicable"] = []
+# domain extensions made after the texts above were written (defect-hunt rounds; each extension is what makes the revert of a
+# "fix:" commit visible again - see mutants/RESULTS.json)
+ADDENDA = {
+ "C08": "Bodies of <= 2 plain items are also replayed as macro-assembled twins: the same module built by a macro_rules! macro, every item an `$i:item` fragment (invisible groups), against the same ground truth.",
+ "C11": "The model carries the cargo-feature dimension: with entrait's `unimock` feature off, unimock support comes from the `unimock` option alone (the client crate depends on unimock itself); Level 2 predicts that such programs cannot be compiled (`::entrait::__unimock` is missing) - the named deviation `unimock-option-without-feature`, a known finding.",
+ "C12": "Modes also include an async_trait attribute below entrait on a function and on a module (it must move to the generated items and leave the annotated item), and by-value receivers of async trait methods (the Impl<T> moves into a future that must still be Send).",
+ "C13": "For `delegate_by = DelegateTr` the generated delegation trait is probed as a third name (it must follow the entraited trait's visibility).",
+ "C15": "Case kinds also include the trait path of an entraited impl block (plain, with a module prefix, with generic arguments - rejected with a diagnostic); the pipeline model (Expand.tla) has the corresponding ParseItem step.",
+ "C16": "The model also covers the functions of entraited impl blocks (static and dynamic delegation targets), where the macro inserts its own `__impl` parameter in front of the user's: a fifth stage renames a user parameter of that name, generated `argN` indices count the inserted parameter, and Level 1's distinctness includes it.",
+ "C17": "`?Send` is enumerated in its bare and `= true` / `= false` forms; the export-variant relation is also evaluated on traits, where it is the named deviation `export-variant-on-trait` (a known finding).",
+ "C18": "Attribute kinds include a disabled cfg applied through cfg_attr (`#[cfg_attr(all(), cfg(any()))]`), which is a cfg for the purposes of the last clause.",
+ "C19": "Seventeen programs (adding a by-value receiver and a trait / a concrete-dependency function whose own method is called `as_ref`) x variants that also shadow METHOD names (blanket traits with `as_ref` / `borrow` / `into_inner` methods) and a `#![no_implicit_prelude]` module.",
+}
 for p in props:
     pid = p["id"]
     if pid in CLAIMED:
         text, note, tech, ref = CLAIMED[pid]
+        if pid in ADDENDA:
+            text = text + " " + ADDENDA[pid]
         m["checks"].append({
             "property_id": pid,
             "quick_cmd": f"./check {pid} --tier quick",
